@@ -106,6 +106,7 @@ def plan(tier, seed):
     for r in (1, 7, 192, 480):
         for n_events in LONG:
             shards.append(("long", r, n_events))
+    shards += [("whole", r) for r in (100, 192, 480, 960)] + [("cancel",)]
     if tier == "thorough":
         for r in RES:
             for n0 in SUB_BPMS:
@@ -227,6 +228,25 @@ def run_shard(shard, ctx):
                     for g2 in ((1, 192) if kmax == 2 else (1, 2, 192, 1000)):
                         for n2 in (BPMS3_QUICK if kmax == 2 else BPMS):
                             check_map(ctx, [(0, n0), (g1, n1), (g1 + g2, n2)], r)
+    elif kind == "whole":
+        # tempo spans that last EXACTLY a whole number of seconds (the float product often falls one ulp short of it):
+        # every integer BPM 30..300 for which k seconds are a whole number of ticks, k = 1..3, then another tempo
+        r = shard[1]
+        for bpm in range(30, 301):
+            for k in (1, 2, 3):
+                if (k * bpm * r) % 60:
+                    continue
+                gap = k * bpm * r // 60
+                for nxt in (120000, 97531):
+                    ctx.node()
+                    check_map(ctx, [(0, bpm * 1000), (gap, nxt), (gap + 2 * r, bpm * 1000 + 500)], r)
+    elif kind == "cancel":
+        # a huge tick count accumulated at a fast tempo, then a tempo lower by many orders of magnitude (differences
+        # of large products cancel; times stay far below the timedelta range)
+        for r, fast, T, slow in ((192, 600000000, 1920000000, 3), (1, 1000000000, 10000000, 7), (192, 600000000, 1920000000, 97), (960, 10**9, 16 * 10**9, 11), (480, 999999999, 10**9 + 7, 1001)):
+            ctx.node()
+            check_map(ctx, [(0, fast), (T, slow)], r)
+            check_map(ctx, [(0, 120000), (5, fast), (T, slow), (T + 3, 333333)], r)
     elif kind == "long":
         _, r, n_events = shard
         cyc_b = (120000, 60000, 240001, 1118, 333333, 90500, 10**9, 1000)
